@@ -264,7 +264,7 @@ def run(rep, tier):
            "validate_plan refuses a handle bound twice and a handle that is never bound", vpl.file + ":%d" % vpl.line)
 
     # ------------------------------------------------------------------ R16.4
-    rep.rule("R16.4", "update guard reached from the Update arm; immutable/protected tables referenced only by their guards; text-path combinators apply the protected-field test too", floor=6)
+    rep.rule("R16.4", "update guard reached from the Update arm; immutable/protected tables referenced only by their guards; text-path combinators apply the protected-field test too; the kind scan covers every clause", floor=7)
     R = region(arms.get("Update", ()))
     gu = [e for e in vc.calls_named(r"kml::guard_update$") if e.block in R]
     ok = bool(gu)
@@ -306,6 +306,38 @@ def run(rep, tier):
            "guard_update tests fields against the immutable-payload tables", gu_f.file + ":%d" % gu_f.line)
 
     # ------------------------------------------------------------------ R16.5
+    # the kind scan looks at *every* WHERE clause and reports *every* kind the target is bound to: a nested NOT / OPTIONAL /
+    # UNION block (whether or not it binds the target) and an earlier binding must not end the scan - the pattern that makes
+    # the target an Assertion may follow - otherwise the immutable-payload and structural guards are evaluated for the wrong
+    # kind (or for none) and the UPDATE is accepted.  Structurally: the loop over the clauses runs to exhaustion; no return
+    # is reachable from inside the loop body.
+    cands = prog.fns_matching(r"^anda_kip::parser::kml::bound_kinds?_of$")
+    if not cands:
+        raise CheckerFault("anchor missing: the kind scan (bound_kind_of / bound_kinds_of)")
+    bk = cands[0]
+    rep.saw(bk, len(bk.events))
+    nexts = bk.calls_named(r"Iterator>?::next$")
+    heads = [e.block for e in nexts]
+    rets = set(bk.return_blocks())
+    early = set()
+    for nx_ in nexts:
+        h = nx_.block
+        # the loop body starts at the `Some(clause)` edge of the test of next()'s result (the None edge is the exhaustion exit)
+        some_t = [m["Some"] for (sb, adt, m) in bk.outcome_edges(nx_.dest.l) if adt == "core::option::Option" and "Some" in m]
+        if not some_t:
+            raise CheckerFault("kind scan: the Some edge of the clause iterator was not found")
+        body = {b for b in bk.reachable_from(some_t, avoid={h}) if b != h and bk.can_reach([b], [h])}
+        # blocks inside the loop from which a return is reachable without coming back to the head
+        for b in body:
+            if bk.reachable_from([b], avoid={h}) & rets:
+                # the edge out of the loop taken when the iterator is exhausted starts at the head's own successors, not in the body
+                early.add(b)
+    # the exhaustion exit: the blocks between `next()` returning None and the return are not "inside the loop"
+    rep.ob("R16.4", "kind-scan-visits-every-clause|%s" % bk.path.rsplit("::", 1)[1], bool(heads) and not early,
+           "the scan that tells the UPDATE guards which kind the target is bound to returns from inside its loop over the WHERE clauses "
+           "(at the first binding or nested block): a later pattern that binds the target as an Assertion / Evidence / Proposition is never seen",
+           bk.file + ":%d" % (bk.term(sorted(early)[0]).get("ln", bk.line) if early else bk.line))
+
     rep.rule("R16.5", "ASSERT expands to exactly EnsureProposition + CreateAssertion (+ SupersedeAssertion); missing by / mode refused", floor=3)
     af = prog.fn(KML + "::assert_statement")
     rep.saw(af, len(af.events))
